@@ -19,7 +19,9 @@ pub fn create_db(
     // The name becomes part of the data file names and travels as one word of the replication
     // messages ('|' separates the names of a snapshot): anything that would split it there ends
     // with the replication thread looking for a database that does not exist
+    // (and a file name cannot be longer than 255 bytes: the longest suffix added to it has 14)
     if name.is_empty()
+        || name.len() > 200
         || name.contains('/')
         || name.contains('\0')
         || name.contains('|')
